@@ -99,8 +99,9 @@ pub open spec fn call_value_ok(r: Result<SourcedValue>, body: Result<Escape>) ->
         Err(e) => r is Err,
         Ok(Escape::None) => r == Ok::<SourcedValue, Error>(null_value()),
         Ok(Escape::Return{value, loc}) => r == Ok::<SourcedValue, Error>(value),
-        Ok(Escape::Break{loc}) => r is Err,
-        Ok(Escape::Continue{loc}) => r is Err,
+        // ... reported at the keyword's own position (not at the call)
+        Ok(Escape::Break{loc}) => r == Err::<SourcedValue, Error>(Error::AtLoc{source: Box::new(Error::BreakOutsideLoop), line: loc.0, col: loc.1}),
+        Ok(Escape::Continue{loc}) => r == Err::<SourcedValue, Error>(Error::AtLoc{source: Box::new(Error::ContinueOutsideLoop), line: loc.0, col: loc.1}),
     }
 }
 """
@@ -117,7 +118,7 @@ SPEC = r"""
         callee_of(old(scopes).world(), args@, *func) matches Some(c) ==> (c.1.v matches Value::Func(f) ==>
             (arity_ok(f.0.0, c.0@.len() as int) ==> exists|bs: Seq<(Expr, SourcedValue)>|
                 #[trigger] bindings_ok(bs, f.0.0, c.0@, c.1.source)
-                && call_value_ok(r, sem_scoped(f.0.0.closure.world(), bs, f.0.0.stmts@).0))), // [C07_C13_C14_C20:parameters_get_the_arguments_in_order_rest_gets_the_surplus_this_is_the_source_body_runs_on_the_closure_chain_and_return_value_or_null_is_the_call_value]
+                && call_value_ok(r, sem_scoped(f.0.0.closure.world(), bs, f.0.0.stmts@).0))), // [C07_C13_C14_C17_C18_C20:parameters_get_the_arguments_in_order_rest_gets_the_surplus_this_is_the_source_body_runs_on_the_closure_chain_return_value_or_null_is_the_call_value_and_a_stray_break_or_continue_is_an_error_at_its_keyword]
         callee_of(old(scopes).world(), args@, *func) matches Some(c) ==> (c.1.v matches Value::BuiltinFunc{name, f} ==>
             (match sem_builtin(f, this_of(c.1.source), c.0@) { Ok(v) => r == Ok::<SourcedValue, Error>(v), Err(_) => r is Err })), // [C14:builtin_receives_the_arguments_and_the_source_as_this]
         callee_of(old(scopes).world(), args@, *func) matches Some(c) ==> (!(c.1.v is Func) && !(c.1.v is BuiltinFunc) ==>
@@ -210,6 +211,8 @@ def _expect(exp_out=None, err_sub=None, located=False):
 def replays(failed):
     yield ("break inside a called function is reported with a position", "fn f() {\n    break\n}\nf()\n", _expect(located=True))
     yield ("continue inside a called function is reported with a position", "fn f() {\n    continue\n}\nwhile true {\n    f()\n}\n", _expect(located=True))
+    yield ("a stray break in a called function is reported at the keyword, not at the call", "fn f() {\n    break\n}\nfor x in [1] {\n        f()\n}\n", _expect(err_sub=":2:5: "))
+    yield ("a stray continue in a called function is reported at the keyword, not at the call", "fn f() {\n  continue\n}\nfor x in [1] {\n        f()\n}\n", _expect(err_sub=":2:3: "))
     yield ("return value is the call value", "fn f() {\n    return 5\n}\nprint(f())\n", _expect("5\n"))
     yield ("falling off the end yields null", "fn f() {\n}\nprint(f())\n", _expect("<null>\n"))
     yield ("rest parameter gets the surplus", "fn f(a, ..r) {\n    n := 0\n    for x in r {\n        n += 1\n    }\n    return n\n}\nprint(f(1, 2, 3))\nprint(f(1))\n", _expect("2\n0\n"))
